@@ -209,7 +209,7 @@ Section Frames.
     destruct (is_not_exist (sr_err rn) && negb (pi_is_last (sr_pi rn))); [nope|].
     destruct (sr_parent ro) as [op|]; [|nope].
     destruct (sr_child ro) as [oc|]; [|nope].
-    destruct (sr_parent rn) as [np|]; [|nope].
+    destruct (sr_parent rn) as [np|]; [|destruct (is_not_exist (sr_err rn)); nope].
     assert (Gmove : forall h0 N, frame (f_heap s) h0 [] N ->
               frame (f_heap s) (remove_child (add_child h0 np (pi_part (sr_pi rn)) oc) op (pi_part (sr_pi ro)))
                     ([(np, pi_part (sr_pi rn))] ++ [(op, pi_part (sr_pi ro))]) N).
